@@ -320,6 +320,46 @@ def fam_import(tier, src=None):
                         D("k0", NODES[n][0], REF("g." + n, None, src), None)])
 
 
+def fam_import_extend(tier, src=None):
+    """property lines directly below an import that re-creates ONE node extend the imported copy only: the referenced
+    node (local or in the remote source), earlier and later imports of it keep their own constraints"""
+    # node -> (extra property lines, value only the extended copy accepts, value both accept)
+    ext = {
+        "o": ([dict(k="opt", val="7", unit=None), dict(k="opts", vals=["8", "9"], unit=None),
+               dict(k="tags", tags=["x1"])], "7", "3"),
+        "e": ([dict(k="opt", val="25", unit="J"), dict(k="opt", val="3e8", unit="erg"), dict(k="tags", tags=["x2"])],
+              None, "25"),
+        "t": ([dict(k="opt", val=S("klm"), unit=None), dict(k="opt", val=S("abc"), unit=None),
+               dict(k="tags", tags=["x3", "x4"])], None, S("klm")),
+        "f": ([dict(k="tags", tags=["x5"]), dict(k="opt", val="1.5", unit="m"), dict(k="opt", val="250", unit="cm")],
+              None, "2.5"),
+    }
+    for n, (lines, only_copy, both) in ext.items():
+        for (form, build), k in itertools.product(IMPORT_FORMS, (0, 1)):
+            pre = tree(IMP_NAMES, extra=True) + premods(n, k)
+            imp = build("g." + n, src)
+            props = [dict(p, ind=imp[-1]["ind"] + 2) for p in lines]
+            px = _imp_prefix(form)
+            base = ["statement=import", "query=single", "node=" + n, "form=" + form, "import-extended",
+                    "source-modified-before=%d" % k]
+            yield base + ["after=nothing"], pre, imp + props, []
+            for sub in (1, 2):
+                yield base + ["after=nothing", "lines=%d" % sub], pre, imp + props[:sub], []
+            yield base + ["after=second-import"], pre, imp + props, [IMP("g." + n, "again", src)]
+            yield (base + ["after=second-import-extended"], pre, imp + props,
+                   [IMP("g." + n, "again", src), dict(k="tags", ind=2, tags=["y"])])
+            yield (base + ["after=first-import-before"], pre, [IMP("g." + n, "before", src)] + imp + props, [])
+            yield base + ["after=copy-modified"], pre, imp + props, [M(px + n, both)]
+            yield base + ["after=original-modified"], pre, imp + props, [M("g." + n, both)]
+            if only_copy is not None:
+                yield base + ["after=copy-takes-new-option"], pre, imp + props, [M(px + n, only_copy)]
+                yield base + ["after=original-takes-copy-option"], pre, imp + props, [M("g." + n, only_copy)]
+                yield (base + ["after=second-import-takes-copy-option"], pre, imp + props,
+                       [IMP("g." + n, "again", src), M("again." + n, only_copy)])
+            yield (base + ["after=injection-from-both"], pre, imp + props,
+                   [D("k1", NODES[n][0], REF(px + n)), D("k2", NODES[n][0], REF("g." + n, None, src))])
+
+
 def fam_import_empty(tier, src=None):
     """imports that select nothing: rejected, or nothing is added and the environment stays readable"""
     for (q, qtag), (form, build) in itertools.product(
@@ -523,7 +563,7 @@ def _plain_def(n):
 
 LOCAL_FAMILIES = dict(inject_def=fam_inject_def, inject_mod=fam_inject_mod, inject_bad=fam_inject_bad,
                       imports=fam_import, import_empty=fam_import_empty, reuse_sliced_host=fam_reuse_sliced_host,
-                      inject_none=fam_inject_none)
+                      inject_none=fam_inject_none, import_extend=fam_import_extend)
 
 
 def remote_cases(fam, tier, api):
